@@ -254,7 +254,7 @@ impl<'r> Ctx<'r> {
             sz: inf.sz,
             copy: inf.copyable || inf.kind == Kind::Extern,
             default: inf.defaultable || inf.kind == Kind::Extern,
-            aligned_struct: inf.kind != Kind::Enum && !inf.packed,
+            aligned_struct: inf.kind == Kind::Struct && !inf.packed,
             by_value_info: Some(i),
         })
     }
